@@ -1799,3 +1799,30 @@ def m_vec_dedup(ex, n, a, f):
         out.append(c)
     v.cells[:] = out
     return UNIT
+
+
+@model(r'^core::num::<impl (u\d+|usize)>::(checked_ilog10|ilog10)$')
+def m_ilog10(ex, n, a, f):
+    v = a[0]
+    checked = 'checked_' in n
+    rt = ret_ty(f)
+    bits = int(re.search(r'impl u(\d+|size)', n).group(1).replace('size', '64'))
+    if isinstance(v, int):
+        if v == 0:
+            if checked:
+                return none(ex, rt)
+            raise Panic('ilog10 of zero')
+        r = len(str(v)) - 1
+        return some(ex, rt, r) if checked else r
+    if ex.branch(v == 0, 'ilog10-zero'):
+        if checked:
+            return none(ex, rt)
+        raise Panic('ilog10 of zero')
+    d = 0
+    p = 10
+    while p < (1 << bits):
+        if ex.branch(z3.ULT(v, z3.BitVecVal(p, bits)), 'ilog10'):
+            break
+        d += 1
+        p *= 10
+    return some(ex, rt, d) if checked else d
